@@ -51,6 +51,11 @@ func schema() models.IndexSchema {
 }
 
 func doc(i int) sl.Doc {
+	if i > basePoints {
+		// points the writer adds land next to the query vectors, so that a
+		// search that sees them (or their reused node ids) returns them
+		return sl.Doc{prop: []float32{2 + float32(i-56)*0.1, 1}, "cat": "c1", "txt": "quick fox", "rev": int64(0)}
+	}
 	return sl.Doc{prop: []float32{float32(i), float32(i % 3)}, "cat": fmt.Sprintf("c%d", i%2), "txt": []string{"quick fox", "lazy dog", "quick dog"}[i%3], "rev": int64(0)}
 }
 
@@ -61,7 +66,11 @@ func scratch() string {
 	return "/dev/shm"
 }
 
-var baseFile string // prepared database with 6 points, copied for every execution
+var baseFile string // prepared database, copied for every execution
+
+// basePoints: more points than the small search window visits, so that one
+// searcher leaves part of the shared graph cache unloaded for the other
+const basePoints = 48
 
 func prepareBase() {
 	dir, err := os.MkdirTemp(scratch(), "c09base")
@@ -75,7 +84,7 @@ func prepareBase() {
 		panic(err)
 	}
 	var pts []models.Point
-	for i := 1; i <= 6; i++ {
+	for i := 1; i <= basePoints; i++ {
 		pts = append(pts, models.Point{Id: sl.UUID(i), Data: sl.Encode(doc(i))})
 	}
 	if err := s.InsertPoints(pts); err != nil {
@@ -102,13 +111,13 @@ type batch struct {
 func writerBatches(kind string) []sl.Op {
 	switch kind {
 	case "ins2":
-		return []sl.Op{{Name: "ins7,8", Kind: "ins", Ids: []int{7, 8}, Docs: []sl.Doc{doc(7), doc(8)}}}
+		return []sl.Op{{Name: "ins57,58", Kind: "ins", Ids: []int{57, 58}, Docs: []sl.Doc{doc(57), doc(58)}}}
 	case "updvec":
 		return []sl.Op{{Name: "upd2(vector,rev)", Kind: "upd", Ids: []int{2}, Docs: []sl.Doc{{prop: []float32{0.5, 0.5}, "rev": int64(1)}}}}
 	case "del1":
 		return []sl.Op{{Name: "del3", Kind: "del", Ids: []int{3}}}
 	case "del-ins":
-		return []sl.Op{{Name: "del3", Kind: "del", Ids: []int{3}}, {Name: "ins9(reuses node id)", Kind: "ins", Ids: []int{9}, Docs: []sl.Doc{doc(9)}}}
+		return []sl.Op{{Name: "del3", Kind: "del", Ids: []int{3}}, {Name: "ins59(reuses node id)", Kind: "ins", Ids: []int{59}, Docs: []sl.Doc{doc(59)}}}
 	}
 	return nil
 }
@@ -117,8 +126,10 @@ func query(kind string) models.Query {
 	switch kind {
 	case "vamana":
 		return models.Query{Property: prop, VectorVamana: &models.SearchVectorVamanaOptions{Vector: []float32{2.2, 1.1}, Operator: models.OperatorNear, SearchSize: 75, Limit: 10}}
+	case "vamana-small":
+		return models.Query{Property: prop, VectorVamana: &models.SearchVectorVamanaOptions{Vector: []float32{30.2, 1.1}, Operator: models.OperatorNear, SearchSize: 25, Limit: 1}}
 	case "vamana-filter":
-		f := sl.IdQuery(1, 2, 3, 7)
+		f := sl.IdQuery(1, 2, 3, 57)
 		return models.Query{Property: prop, VectorVamana: &models.SearchVectorVamanaOptions{Vector: []float32{2.2, 1.1}, Operator: models.OperatorNear, SearchSize: 75, Limit: 10, Filter: &f}}
 	case "text":
 		return models.Query{Property: "txt", Text: &models.SearchTextOptions{Value: "quick dog", Operator: models.OperatorContainsAny, Limit: 10}}
@@ -162,9 +173,10 @@ func run(raw json.RawMessage, prefix []string) (*vsched.Trace, []schedlib.V, str
 		proxy = faultx.Wrap(d)
 		return proxy
 	})
+	proxy.TrackValues = true
 	// committed states S0, S1, ...
 	model := sl.NewModel(schema(), 1<<20)
-	for i := 1; i <= 6; i++ {
+	for i := 1; i <= basePoints; i++ {
 		model.Docs[i] = sl.Canon(doc(i))
 	}
 	snap := func() map[int]sl.Doc {
@@ -238,6 +250,11 @@ func run(raw json.RawMessage, prefix []string) (*vsched.Trace, []schedlib.V, str
 				for _, r := range res {
 					id := sl.UUIDIndex(r.Id)
 					ids = append(ids, id)
+					if r.DecodedData == nil && proxy.AliasesEndedTx(r.Point.Data) {
+						// do not touch it: the mapping may already be gone
+						fail("search-result-points-into-ended-transaction", "%s (%s): the document of point %d is returned as a slice of the storage engine's memory map although the read transaction has ended; a concurrent write that grows or reuses the file unmaps / overwrites it (SIGSEGV or a foreign document when the caller encodes the response)", name, kind, id)
+						continue
+					}
 					d, _ := sl.ResultDoc(r)
 					d = sl.Canon(d)
 					ok := false
@@ -276,7 +293,17 @@ func run(raw json.RawMessage, prefix []string) (*vsched.Trace, []schedlib.V, str
 			})
 		}
 	})
-	for _, l := range proxy.TakeLate() {
+	late := proxy.TakeLate()
+	if len(late) > 0 {
+		// a search that failed in the same execution failed because the proxy
+		// refused the read (without the proxy: undefined behaviour in bbolt)
+		for i := range viols {
+			if strings.HasPrefix(viols[i].Sig, "search-failed-spuriously:") {
+				viols[i].Sig += ":after-read-through-ended-transaction"
+			}
+		}
+	}
+	for _, l := range late {
 		kind := "read-only"
 		if l.Writable {
 			kind = "write"
@@ -287,7 +314,10 @@ func run(raw json.RawMessage, prefix []string) (*vsched.Trace, []schedlib.V, str
 	// after the writers finished: state = sequential application in commit order, warm = cold
 	if !tr.Deadlock && !tr.Unsettled && tr.Diverged == "" && !tr.Horizon {
 		final := &sl.Inst{Shard: s, Cfg: sl.InstCfg{Schema: schema()}}
-		uni := []int{1, 2, 3, 4, 5, 6, 7, 8, 9}
+		uni := []int{57, 58, 59}
+		for i := 1; i <= basePoints; i++ {
+			uni = append(uni, i)
+		}
 		o := &sl.Obs{}
 		final.PointsBattery(o, model, uni)
 		final.GraphCheck(o, model, prop, *schema()[prop].VectorVamana)
@@ -295,7 +325,16 @@ func run(raw json.RawMessage, prefix []string) (*vsched.Trace, []schedlib.V, str
 			fail("final-state:"+v.Sig, "%s", v.Detail)
 		}
 		warm, werr := final.Observe(uni, []models.Query{query("vamana"), query("vamana-filter"), query("text"), query("string")}, false)
-		s.Close()
+		closed := make(chan struct{})
+		go func() { s.Close(); close(closed) }()
+		select {
+		case <-closed:
+		case <-time.After(3 * time.Second):
+			fail("shard-close-blocked", "all threads finished but closing the shard blocks: a storage transaction is still open")
+			pool.RequestRecycle()
+			sort.Strings(outcome)
+			return tr, viols, strings.Join(outcome, ";")
+		}
 		s2, err := shard.NewShard(path, col, cache.NewManager(-1))
 		if err != nil {
 			fail("reopen-failed", "%v", err)
@@ -307,7 +346,9 @@ func run(raw json.RawMessage, prefix []string) (*vsched.Trace, []schedlib.V, str
 			s2.Close()
 		}
 	} else {
-		s.Close()
+		// an execution that did not run to completion may have left a
+		// transaction open: closing would block; drop the worker instead
+		pool.RequestRecycle()
 	}
 	execCount++
 	if runtime.NumGoroutine() > 60 || execCount > 200 {
@@ -336,7 +377,11 @@ func master(cfg *harness.Config, rep *harness.Report) {
 		}
 		for i := 0; i < 5; i++ {
 			tr, viols, out := run(r.Program, r.Choices)
-			fmt.Printf("replay %d: %d steps, diverged=%q deadlock=%v outcome=%s, %d violation(s)\n", i+1, len(tr.Steps), tr.Diverged, tr.Deadlock, out, len(viols))
+			fmt.Printf("replay %d: %d steps, diverged=%q deadlock=%v unsettled=%v horizon=%v stuck=%v outcome=%s, %d violation(s)\n", i+1, len(tr.Steps), tr.Diverged, tr.Deadlock, tr.Unsettled, tr.Horizon, tr.Stuck, out, len(viols))
+			if tr.Deadlock || tr.Unsettled {
+				fmt.Println(tr.Dump)
+				break
+			}
 			if i == 4 {
 				for _, v := range viols {
 					rep.Violate(harness.Violation{Sig: v.Sig, Detail: v.Detail, Replay: r})
@@ -345,23 +390,31 @@ func master(cfg *harness.Config, rep *harness.Report) {
 		}
 		return
 	}
-	var programs []any
-	for _, start := range []string{"cold", "partial", "warm"} {
-		for _, w := range []string{"none", "ins2", "updvec", "del1", "del-ins"} {
-			for _, ss := range [][]string{{"vamana", "vamana"}, {"vamana", "vamana-filter"}, {"vamana-filter", "text"}} {
-				if w == "none" && ss[1] == "text" {
-					continue
+	mk := func(starts, writers []string, sets [][]string, getEvery int) []any {
+		var out []any
+		for _, start := range starts {
+			for _, w := range writers {
+				for _, ss := range sets {
+					if w == "none" && ss[len(ss)-1] == "text" {
+						continue
+					}
+					out = append(out, Program{Searchers: ss, Writer: w, Start: start, GetEvery: getEvery})
 				}
-				programs = append(programs, Program{Searchers: ss, Writer: w, Start: start, GetEvery: 4})
 			}
 		}
+		return out
 	}
+	sets := [][]string{{"vamana-small", "vamana"}, {"vamana", "vamana-filter"}, {"vamana-filter", "text"}}
+	allW := []string{"none", "ins2", "updvec", "del1", "del-ins"}
+	programs := mk([]string{"cold", "partial", "warm"}, allW, sets, 8)
+	core := mk([]string{"cold", "warm"}, []string{"none", "del-ins"}, sets[:2], 8)
+	coreAll := mk([]string{"cold", "warm"}, []string{"none", "updvec", "del-ins"}, sets, 8)
 	type phase struct {
 		name     string
 		programs []any
 		bound    int
 	}
-	phases := []phase{{"all programs, bound 0", programs, 0}, {"all programs, bound 1", programs, 1}}
+	phases := []phase{{"all programs, bound 0", programs, 0}, {"core programs (cold/warm x none/delete+insert x two graph-search pairs), bound 1", core, 1}}
 	if !cfg.Quick() {
 		var three []any
 		for _, start := range []string{"cold", "warm"} {
@@ -369,7 +422,7 @@ func master(cfg *harness.Config, rep *harness.Report) {
 				three = append(three, Program{Searchers: []string{"vamana", "vamana-filter", "vamana"}, Writer: w, Start: start, GetEvery: 1})
 			}
 		}
-		phases = append(phases, phase{"three searchers, every Get a point, bound 1", three, 1}, phase{"all programs, bound 2", programs, 2})
+		phases = []phase{{"all programs, bound 0", programs, 0}, {"all programs, bound 1", programs, 1}, {"three searchers, every Get a point, bound 1", three, 1}, {"core programs, bound 2", coreAll, 2}}
 	}
 	if pj := cfg.Extra["program"]; pj != "" {
 		var one Program
